@@ -4,7 +4,7 @@ from typing import List, Optional
 
 from harness.core import worker_main
 
-from krrood.entity_query_language.entity import entity, set_of, let, and_, or_, not_, in_, contains, inference
+from krrood.entity_query_language.entity import entity, set_of, let, and_, or_, not_, in_, contains, inference, for_all
 from krrood.entity_query_language.quantify_entity import an
 from krrood.entity_query_language.result_quantification_constraint import AtMost, AtLeast, Range
 from krrood.entity_query_language.predicate import Predicate, symbolic_function, Symbol
@@ -93,6 +93,8 @@ def build(e, V):
         return or_(build(e[1], V), build(e[2], V))
     if k == "not":
         return not_(build(e[1], V))
+    if k == "forall":
+        return for_all(V[e[1]], build(e[2], V))
     if k == "pred":
         return Small(o=V[e[1]])
     if k == "fun":
@@ -147,7 +149,120 @@ def rows(results, V, two, X, Y):
     return out
 
 
+@dataclass(eq=False, repr=False)
+class MD(Symbol):
+    """A dataclass element (match patterns need declared fields) whose field reads are logged."""
+    name: str
+    a: int = 0
+    ref: Optional["MD"] = None
+    items: List["MD"] = field(default_factory=list)
+
+    def __getattribute__(self, n):
+        if n in ("a", "ref", "items"):
+            LOG.append(("attr", object.__getattribute__(self, "name"), n))
+        return object.__getattribute__(self, n)
+
+    def __repr__(self):
+        return object.__getattribute__(self, "name")
+
+
+def raw(o, n):
+    return object.__getattribute__(o, n)
+
+
+def md_world():
+    objs = [MD(f"x{i + 1}", a) for i, (a, b) in enumerate(VEC)]
+    for i, o in enumerate(objs):
+        o.items = [objs[(i + 1) % 7], objs[(i + 3) % 7]] if i % 2 else []
+        o.ref = objs[(i * 3 + 1) % 7]
+    return objs
+
+
+def make_match(cond, lazy, form):
+    """Match patterns whose keyword value is itself a variable over a (lazily produced) domain: x.ref == y,
+    x.a == n, y in x.items.  Only x is selected; the y index of a row is recovered from the data."""
+    X = md_world()
+    kind = cond[1]
+    # a variable assigned to a keyword means "the attribute is a member of the variable's value": y ranges over disjoint groups
+    if kind == "scalar":
+        Y = [(1,), (5, 7), (0,)]
+        kw = "a"
+    else:
+        Y = [(X[2], X[0]), (X[4],), (X[1], X[6], X[3]), (X[5],)]
+        kw = "ref"
+    yv = let(tuple, gen(Y, "y") if lazy else list(Y), name="y")
+    q = an(entity_matching(MD, gen(X, "x") if lazy else list(X))(**{kw: yv}))
+    return q, {"kind": kind}, X, Y, True
+
+
+def match_rows(results, kind, X, Y):
+    out = []
+    for r in results:
+        v = raw(r, "a" if kind == "scalar" else "ref")
+        out.append([X.index(r) + 1, [j for j, g in enumerate(Y) if any(v is m or (kind == "scalar" and v == m) for m in g)][0] + 1])
+    return out
+
+
+def make_forall(cond, lazy, form="query"):
+    """x is selected, y is the universally quantified variable of the for_all inside cond."""
+    X, Y = world("x"), world("y")
+    V = {"x": let(L, gen(X, "x") if lazy else list(X), name="x"), "y": let(L, gen(Y, "y") if lazy else list(Y), name="y")}
+    return an(entity(V["x"], build(cond, V))), V, X, Y, False
+
+
+def pyterm(t, env):
+    return t[1] if t[0] == "lit" else getattr(env[t[1]], "_" + t[2])
+
+
+def pyeval(e, env, Y, note):
+    """Short-circuit evaluation on the raw data; note["cex"] = what the for_all needs of y for this x:
+    0 = not evaluated, j = first refuting y, len(Y) = holds for all."""
+    k = e[0]
+    if k == "cmp":
+        l, r = pyterm(e[2], env), pyterm(e[3], env)
+        return {"eq": l == r, "ne": l != r, "lt": l < r, "ge": l >= r}[e[1]]
+    if k == "and":
+        return pyeval(e[1], env, Y, note) and pyeval(e[2], env, Y, note)
+    if k == "or":
+        return pyeval(e[1], env, Y, note) or pyeval(e[2], env, Y, note)
+    if k == "forall":
+        for j, y in enumerate(Y):
+            if not pyeval(e[2], {**env, e[1]: y}, Y, note):
+                note["need"] = j + 1
+                return False
+        note["need"] = len(Y)
+        return True
+    raise ValueError(e)
+
+
+def forall_needs(cond):
+    X, Y = world("x"), world("y")
+    out = []
+    for x in X:
+        note = {"need": 0}
+        pyeval(cond, {"x": x}, Y, note)
+        out.append(note["need"])
+    return out
+
+
 def handle(case):
+    cond = case["cond"]
+    form = case.get("form", "query")
+    res = {"obs": []}
+    if case.get("family") == "forall":
+        r = handle_with(case, make_forall, rows)
+        if "obs" in r:
+            r["fa"] = forall_needs(cond)
+            for o in r["obs"]:
+                o["n"] = [7, 7]
+        return r
+    if cond[0] == "match":
+        return handle_with(case, lambda c, lazy, form="query": make_match(c, lazy, form),
+                           lambda results, V, two, X, Y: match_rows(results, V["kind"], X, Y))
+    return handle_with(case, make, rows)
+
+
+def handle_with(case, make, rows):
     cond = case["cond"]
     form = case.get("form", "query")
     res = {"obs": []}
@@ -186,7 +301,7 @@ def handle(case):
             again = rows(list(q.evaluate()), V, two, X, Y)
         except Exception as ex:
             again = f"{type(ex).__name__}: {ex}"
-        res["obs"].append({"k": k, "n": [7, 7 if two else 0], "pulls": [pulls["x"], pulls["y"]], "build": build_events + after_evaluate_call,
+        res["obs"].append({"k": k, "n": [len(X), len(Y) if two else 0], "pulls": [pulls["x"], pulls["y"]], "build": build_events + after_evaluate_call,
                            "got": len(got), "first": rows(got, V, two, X, Y), "error": err, "again": again})
     return res
 
